@@ -234,16 +234,28 @@ func GenStream(r *payload.SplitMix, max int) Stream {
 			desc = append(desc, fmt.Sprintf("long-header(s%d,m%d,len%d,hdr%d)", sid, mid, n, len(hdr)))
 			mid++
 		case act == 20: // a packet with the largest message id, then ids that would be "next" only if the counter wrapped
+			lastStream := r.Intn(3) == 0 // the very last id there is: the stream id is the largest one too
+			if lastStream {
+				sid = ^uint64(0)
+			}
 			emit(refwire.Frame{Stream: sid, Message: ^uint64(0), Kind: kind, Done: true, Data: body(r.Intn(10))})
 			next := []uint64{0, 1, mid, ^uint64(0)}[r.Intn(4)]
-			emit(refwire.Frame{Stream: sid, Message: next, Kind: kind, Done: r.Intn(2) == 0, Data: body(r.Intn(10))})
+			nsid := sid
+			if lastStream {
+				nsid = []uint64{0, 1, 2, ^uint64(0)}[r.Intn(4)] // nothing may follow the last id, whatever wraps around
+			}
+			emit(refwire.Frame{Stream: nsid, Message: next, Kind: kind, Done: r.Intn(2) == 0, Data: body(r.Intn(10))})
 			if r.Intn(2) == 0 {
 				sid++
 				mid = 0
 				emit(refwire.Frame{Stream: sid, Message: mid, Kind: kind, Done: true, Data: body(r.Intn(10))})
 				mid++
 			}
-			desc = append(desc, fmt.Sprintf("max-message-id-then(m%d)", next))
+			if lastStream {
+				desc = append(desc, fmt.Sprintf("last-id-then(s%d,m%d)", nsid, next))
+			} else {
+				desc = append(desc, fmt.Sprintf("max-message-id-then(m%d)", next))
+			}
 		case act == 12: // frame declaring a huge length, few bytes follow
 			hdr := []byte{kind<<1 | 1}
 			hdr = refwire.PutUvarint(hdr, sid)
